@@ -36,6 +36,15 @@ def check(ctx):
             ctx.ob("R16.1", fq, e.node, False, "no machine-epsilon guard (finfo(...).tiny) in the normalisation",
                    construct=f"{cls}: unit formula")
             continue
+        # the guard must be representable in the tensors' precision (both engines work in float32): a float64 `tiny`
+        # (2.2e-308) added to a float32 norm rounds to 0, so a zero adversary gradient gives 0/0 = NaN weights
+        targ = b["tiny"].args[0].args[1][0] if b["tiny"].args[0].args[1] else None
+        ok32 = targ is not None and ((targ.op == "global" and targ.args[0] in ("torch.float32", "numpy.float32", "torch.float", "tensorflow.float32"))
+                                     or (targ.op == "const" and const_value(targ) == "float32"))
+        ctx.ob("R16.1", fq, e.node, ok32, "the epsilon guard is the smallest normal float32 number, so unit = 0 when dW_LA = 0" if ok32 else
+               f"the epsilon guard is finfo({show(targ, maxdepth=2) if targ is not None else '?'}).tiny (float64, 2.2e-308), which underflows to "
+               "0 in the engine's float32 arithmetic: when dW_LA is exactly zero (e.g. dead ReLU units in the adversary) unit = "
+               "0/0 = NaN and every predictor weight becomes NaN", construct=f"{cls}: epsilon guard precision")
         U = A.spec("gA / (norm(gA) + tiny)", b)
         b["U"] = U
         cU, cgP = A.C.canon(U), A.C.canon(gP)
